@@ -194,10 +194,7 @@ theorem simulate_rank {T : Tables} {la : Int} (rank : Int → Nat)
           dsimp only
           cases hgo : find T.gotos st rule with
           | oob => intro hc; cases hc
-          | miss =>
-            have : simNext T st = some 0 := by simp [simNext, hf, hneg, hg, hgo]
-            have := hr _ _ this
-            exact simulate_rank rank hr n 0 (by omega)
+          | miss => intro hc; cases hc
           | hit st' =>
             have : simNext T st = some st' := by simp [simNext, hf, hneg, hg, hgo]
             have := hr _ _ this
@@ -263,7 +260,7 @@ theorem simulate_mono {T : Tables} {la : Int} : ∀ (n : Nat) {m : Nat} {st : In
           simp only [hg] at h ⊢
           cases hgo : find T.gotos st rule with
           | oob => rfl
-          | miss => simp only [hgo] at h ⊢; exact simulate_mono n h (by omega)
+          | miss => rfl
           | hit st' => simp only [hgo] at h ⊢; exact simulate_mono n h (by omega)
       · simp only [hneg, if_false]
 
